@@ -5,12 +5,18 @@ from . import register
 
 
 def gen(rng, n, tier):
-    return gen_exec.gen(rng, n, tier, focus="single", blocks=(8, 18))
+    # one-to-one traffic, plus a share of one-to-many groups ("the same holds for a one-to-many group as a whole")
+    k = n // 4
+    return gen_exec.gen(rng, n - k, tier, focus="single", blocks=(8, 18)) + gen_exec.gen(rng, k, tier, focus="group", blocks=(8, 18))
+
+
+def mon(h, obs):
+    return mon_exec.mon_c06(h, obs) + mon_exec.mon_c06_groups(h, obs)
 
 
 register(PropSpec(
     "C06",
-    engines=[EngineSpec("exec", gen, mon_exec.mon_c06, mon_exec.tags_c04, quick_n=250, thorough_n=6000, mask=mon_exec.mask_unmodelled)],
+    engines=[EngineSpec("exec", gen, mon, mon_exec.tags_c04, quick_n=250, thorough_n=6000, mask=mon_exec.mask_unmodelled)],
     rule="exec engine: requests with timeouts 0/1/2/3/4/10/huge/negative, receipts before/at/after H+T, several requests sharing a deadline, "
-         "restarts; per block the TimeoutCounter and per id the status are compared with the protocol; non-trivial = a timeout fired or a status edge was seen",
+         "restarts; a quarter of the histories carry one-to-many groups (children begun in different blocks, begin-failed and failed groups, group deadlines): a group is listed as timed out only in its deadline block and only if it has neither failed nor finished; per block the TimeoutCounter and per id the status are compared with the protocol; non-trivial = a timeout fired or a status edge was seen",
 ))
